@@ -301,6 +301,62 @@ func replayDet(line []byte, a *Acc) {
 			if !check("Maps.JsonStringIndent(safe)", []byte(s), err, string(jis)+"\n"+string(jis)) {
 				return
 			}
+			// members that are empty or nil Maps: each is a document of its own (what the single-Map encoder makes of it)
+			{
+				var nilMap mxj.Map
+				ex, _ := mxj.Map{}.Xml()
+				nx, _ := nilMap.Xml()
+				exi, _ := mxj.Map{}.XmlIndent("", "  ")
+				nxi, _ := nilMap.XmlIndent("", "  ")
+				ej, _ := mxj.Map{}.Json()
+				nj, _ := nilMap.Json()
+				eji, _ := mxj.Map{}.JsonIndent("", " ")
+				nji, _ := nilMap.JsonIndent("", " ")
+				mse := mxj.Maps{m, mxj.Map{}, nilMap, m}
+				s, err = mse.XmlString()
+				if !check("Maps{m, {}, nil, m}.XmlString", []byte(s), err, l.X+string(ex)+string(nx)+l.X) {
+					return
+				}
+				s, err = mse.XmlStringIndent("", "  ")
+				if !check("Maps{m, {}, nil, m}.XmlStringIndent", []byte(s), err, string(bi)+string(exi)+string(nxi)+string(bi)) {
+					return
+				}
+				s, err = mse.JsonString()
+				if !check("Maps{m, {}, nil, m}.JsonString", []byte(s), err, l.J+string(ej)+string(nj)+l.J) {
+					return
+				}
+				s, err = mse.JsonStringIndent("", " ")
+				if !check("Maps{m, {}, nil, m}.JsonStringIndent", []byte(s), err, string(ji)+"\n"+string(eji)+"\n"+string(nji)+"\n"+string(ji)) {
+					return
+				}
+				if rep == 0 && capa == 0 {
+					fx, fj := filepath.Join(dir, "xe"), filepath.Join(dir, "je")
+					e1, e2 := mse.XmlFile(fx), mse.JsonFile(fj)
+					bx, _ := os.ReadFile(fx)
+					bj, _ := os.ReadFile(fj)
+					if !check("Maps{m, {}, nil, m}.XmlFile", bx, e1, l.X+string(ex)+string(nx)+l.X) || !check("Maps{m, {}, nil, m}.JsonFile", bj, e2, l.J+string(ej)+string(nj)+l.J) {
+						return
+					}
+					e1, e2 = mse.XmlFileIndent(fx, "", "  "), mse.JsonFileIndent(fj, "", " ")
+					bx, _ = os.ReadFile(fx)
+					bj, _ = os.ReadFile(fj)
+					if !check("Maps{m, {}, nil, m}.XmlFileIndent", bx, e1, string(bi)+string(exi)+string(nxi)+string(bi)) ||
+						!check("Maps{m, {}, nil, m}.JsonFileIndent", bj, e2, string(ji)+"\n"+string(eji)+"\n"+string(nji)+"\n"+string(ji)) {
+						return
+					}
+					// nothing to indent with: the file holds the per-Map XmlIndent("", "") forms, not the compact ones
+					x0, _ := m.XmlIndent("", "")
+					e1 = ms.XmlFileIndent(fx, "", "")
+					bx, _ = os.ReadFile(fx)
+					if !check("Maps.XmlFileIndent(\"\",\"\")", bx, e1, string(x0)+string(x0)) {
+						return
+					}
+					s, err = ms.XmlStringIndent("", "")
+					if !check("Maps.XmlStringIndent(\"\",\"\")", []byte(s), err, string(x0)+string(x0)) {
+						return
+					}
+				}
+			}
 			if rep == 0 && capa == 0 {
 				fx, fj, fjs := filepath.Join(dir, "x"), filepath.Join(dir, "j"), filepath.Join(dir, "js")
 				e1, e2, e3 := ms.XmlFile(fx), ms.JsonFile(fj), ms.JsonFile(fjs, true)
